@@ -360,6 +360,7 @@ def explore(module, hname, cfg, max_paths=200000, max_seconds=3600, timeout_ms=1
         prefix = work.pop()
         ctx = Ctx(prefix, timeout_ms=timeout_ms, seed=seed)
         ctx.deg_limit = cfg.get('deg_limit', 3)
+        ctx.maxdepth = cfg.get('maxdepth', 600)
         ctx.sliver_assume = bool(cfg.get('sliver_assume', 1))
         Ctx.cur = ctx
         run = SymRun(ctx, st, cfg)
